@@ -93,7 +93,10 @@ KEYS = ["k", "key", "user", "a1", "_p", "r", "reff", "re", "Ref", "ä"]
 PLAIN = ["let x = 5;", "fn helper(a: u32) -> u32 { a + 1 }", "struct S { a: u8 }", "}", "{", "x += 1;",
          "use log::{info, warn};", "match y { 1 => 2, _ => 3 };", "let v = vec![1, 2, 3];", "impl T for S {}",
          "#[derive(Debug)]", "let c = 'a';", "return;", "if a { b } else { c }", "loop { break; }",
-         "let t = (1, 2);", "type A = u8;", "let info = 3;", "let s = r#\"raw\"#;"]
+         "let t = (1, 2);", "type A = u8;", "let info = 3;", "let s = r#\"raw\"#;",
+         # a double quote in code outside any string literal (char / byte literals), lifetimes, raw strings
+         "if c == '\"' { n += 1; }", "let q = b'\"';", "let e = '\\\"';", "let lt: &'static str = NAME;",
+         "let r = r#\"a \"quoted\" word\"#;", "match ch { '\"' => 1, '\\'' => 2, _ => 3 };"]
 PREFIX_SAME_LINE = ["", "", "return ", "else { ", "x => ", "if a { ", "let _ = ", "Ok(()) => ", "; ", "} ", "unsafe { ",
                     "move || ", "5 + ", "ü; "]
 DECOY_MACROS = ["println", "myinfo", "infox", "info2", "other::info", "log::infox", "logx::info", "tracing::info",
